@@ -22,7 +22,7 @@ def run(tier, seed, replay=None):
     from splipy import state, SplineObject
     rng = random.Random(seed)
     tol = C.fr(state.knot_tolerance)
-    npair = 150 if tier == 'quick' else 2500
+    npair = 240 if tier == 'quick' else 3000
     cases = []
     dist = {'pardim': {}, 'op': {}, 'rational': {}, 'periodic': {}, 'dims': {}, 'errors': {}}
     if replay:
@@ -36,6 +36,14 @@ def run(tier, seed, replay=None):
             pd = rng.choice([1, 1, 2, 2, 3])
             kinds = ['open', 'open', 'open', 'periodic']
             bigp = rng.random() < 0.6
+            if rng.random() < 0.4:
+                # related pairs: the same kind in every direction (so two periodic directions meet, with equal or different
+                # continuity and order) and repeated interior knots, which then also occur among the ghost knots
+                dk = [rng.choice(['open', 'periodic', 'periodic']) for _ in range(pd)]
+                a = O.gen_obj(rng, pardim=pd, dir_kinds=dk, nint_max=2, pmax={1: 5, 2: 4, 3: 3}[pd], big_periodic=True, multi=0.7)
+                b = O.gen_obj(rng, pardim=pd, dir_kinds=dk, nint_max=2, pmax={1: 5, 2: 4, 3: 3}[pd], big_periodic=True, multi=0.7)
+                todo.append((a, b, None))
+                continue
             a = O.gen_obj(rng, pardim=pd, kinds=kinds, nint_max=2, pmax={1: 4, 2: 4, 3: 3}[pd], big_periodic=bigp)
             b = O.gen_obj(rng, pardim=pd, kinds=kinds, nint_max=2, pmax={1: 4, 2: 4, 3: 3}[pd], big_periodic=bigp)
             todo.append((a, b, None))
@@ -100,7 +108,7 @@ def run(tier, seed, replay=None):
     outs = C.run_model(lines)
     evals = 0
     nontriv = set()
-    corr_bad = None
+    corr_bad = C.Corr()
     samples = []
     for c, e in zip(cases, idx):
         evals += 1
@@ -117,16 +125,16 @@ def run(tier, seed, replay=None):
                 merr = None
                 ma, mb = O.read_obj(tk), O.read_obj(tk)
         if merr is not None:
-            if merr != 'Singular' and c['err'] != merr and corr_bad is None:
-                corr_bad = dict(case, what='L1: model raises %s, implementation %s' % (merr, c['err'] or 'succeeds'))
+            if merr != 'Singular' and c['err'] != merr and corr_bad.open():
+                corr_bad += dict(case, what='L1: model raises %s, implementation %s' % (merr, c['err'] or 'succeeds'))
         elif c['err'] is not None:
-            if corr_bad is None:
-                corr_bad = dict(case, what='L1: implementation raises %s, model succeeds' % c['err'])
+            if corr_bad.open():
+                corr_bad += dict(case, what='L1: implementation raises %s, model succeeds' % c['err'])
         else:
             for nm, x, y in (('first', c['qa'], ma), ('second', c['qb'], mb)):
                 dfr = O.snaps_differ(x, y, rel=1e-7)
-                if dfr and corr_bad is None:
-                    corr_bad = dict(case, what='L1: %s object differs from model: %s' % (nm, dfr))
+                if dfr and corr_bad.open():
+                    corr_bad += dict(case, what='L1: %s object differs from model: %s' % (nm, dfr))
         # ---- L2
         if c['err'] is not None:
             V.failure(dict(case, what='L2: %s raised %s' % (c['op'], c['err'])))
@@ -161,7 +169,7 @@ def run(tier, seed, replay=None):
                 break
         if len(samples) < 3 and c['op'] == 'identical' and c['direction'] is None and len(qa['bases']) > 1:
             samples.append(case)
-    rc = V.finish(l0, corr_bad if not V.fail else None)
+    rc = V.finish(l0, corr_bad)
     C.write_evidence(PID, tier, seed, l0, {
         'evaluations': evals, 'distinct_nontrivial': len(nontriv),
         'rule': 'random pairs of objects of equal pardim (1-3) with different orders, knots, multiplicities, domains, periodicities, rationality and dimensions; '
